@@ -1,0 +1,11 @@
+//go:build verif
+
+package signal
+
+// VerifData returns the backing slice of b over its whole capacity. It is
+// compiled only with the "verif" build tag and is used by the verification
+// harness to observe storage identity and samples beyond the length without
+// modifying the buffer.
+func VerifData[T SignalTypes](b *Buffer[T]) []T {
+	return b.data[:cap(b.data)]
+}
